@@ -42,6 +42,9 @@ def structures(tier, seed=0):
             [([-1, 0, 0, 1], [2, 2, 2, 2]), ([-1, 0], [2, 2])],
             [([-1, 0, 1], [1, 1, 1]), ([-1], [1]), ([-1, 0, 0], [1, 1, 1])],
             [([-1, 0, 0], [2, 1, 3]), ([-1, 0], [1, 2])],
+            # unbranched cells with different numbers of compartments: refused by the custom implicit back ends, but accepted by
+            # jax.sparse and by forward Euler (finding F24: the explicit step reshaped the voltages to (nbranches, -1))
+            [([-1], [1]), ([-1], [3])], [([-1], [3]), ([-1], [1])], [([-1], [2]), ([-1], [1]), ([-1], [3])],
         ]
         S += nets
     else:
@@ -209,6 +212,9 @@ def main(tier):
                 if not rp["reproduced"]:
                     rp2 = native_compare(o["cells"], solver="crank_nicolson")
                     rp = rp2 if rp2["reproduced"] else rp
+                if not rp["reproduced"] and any("fwd_euler" in b["name"] for b in bad):
+                    rp2 = native_compare(o["cells"], solver="fwd_euler", backends=("jaxley.thomas", "jaxley.stone"))
+                    rp = rp2 if rp2["reproduced"] else rp
             except Exception as e:
                 rp = {"reproduced": False, "reason": f"native construction/integration raised {type(e).__name__}: {str(e)[:100]}"}
             for r in bad[:5]:
@@ -266,6 +272,13 @@ def native_compare(cells, seed=0, dt=0.1, backends=("jaxley.thomas", "jaxley.sto
     if solver == "crank_nicolson":
         A2, b2, _ = cable.numeric_system(cells, P, dt / 2)
         want = 2 * np.linalg.solve(A2, b2)[:N] - P["v"]
+    elif solver == "fwd_euler":
+        # explicit Euler of the same operator (unbranched modules only: no branch-point unknowns): v + (b - A v), A = I + dt*M
+        if A.shape[0] != N:
+            return {"cells": cells, "solver": solver, "reproduced": False, "reason": "forward Euler is refused for branched morphologies"}
+        dt = 0.001
+        A, b, _ = cable.numeric_system(cells, P, dt)
+        want = P["v"] + (b - A @ P["v"])
     else:
         want = np.linalg.solve(A, b)[:N]
     out = {"cells": cells, "dt": dt, "solver": solver, "spec_solution": want.tolist(), "backends": {}}
@@ -284,4 +297,6 @@ def native_compare(cells, seed=0, dt=0.1, backends=("jaxley.thomas", "jaxley.sto
 
 
 def replay(p):
+    if "fwd_euler" in str(p.get("obligation", "")):
+        return native_compare(p["cells"], solver="fwd_euler", backends=("jaxley.thomas", "jaxley.stone"))
     return native_compare(p["cells"])
